@@ -13,3 +13,5 @@ import DefconModel.Lemmas.Geom.Glyph
 import DefconModel.Lemmas.Geom.World
 import DefconModel.Lemmas.Geom.Reverse
 import DefconModel.Lemmas.Geom.SetStart
+import DefconModel.Lemmas.Geom.Cyclic
+import DefconModel.Lemmas.Geom.Rotate
